@@ -14,7 +14,7 @@ ST_ROW = ["models/c02fmt_carve.h: struct caption (168 KB) and the packet assembl
           "cache get/unref, vbi_convert_page: stubs, unreachable at Level 1 without navigation",
           "native build: -fsanitize=bounds off for the functions of teletext.c only (raw[0][i] flat indexing, i >= 40, is standard-level UB inside data.lop)"]
 ST_CS = ["same translation unit as the row obligations (src/teletext.c included, type carving as above), decoder and vbi_page objects compiled out"]
-ROWDEF = {"C02FMT_ROWS": None, "KNOWN_C02_HELD_MOSAIC_NO_RESET": 1}
+ROWDEF = {"C02FMT_ROWS": None}   # KNOWN_C02_HELD_MOSAIC_NO_RESET dropped: fixed in /repo
 # raw_flat[1040] must be field sensitive (constant propagation of the concrete rows), text[1056] must not be (cheap struct stores)
 FS1040 = ["--max-field-sensitivity-array-size", "1040"]
 FS1056 = ["--max-field-sensitivity-array-size", "1056"]
